@@ -4,3 +4,4 @@ import Siot.Props.C16
 import Siot.Props.C17
 import Siot.Props.C18
 import Siot.Props.C19
+import Siot.Props.C12
